@@ -30,6 +30,8 @@ class FloatLike (F : Type) where
   round : F → F
   /-- Rust `f64::fract` (`x - x.trunc()`) -/
   fract : F → F
+  /-- Rust `f64::is_normal` (neither zero, subnormal, infinite nor NaN) -/
+  isNormal : F → Bool
   sqrt : F → F
   /-- Rust `f64::max` as compiled in the dev profile on this target
       (`if a < b {b} else if a is NaN {b} else {a}`) -/
